@@ -300,6 +300,7 @@ func runC04(c *Ctx) {
 			r.Undecided("extract", cl.name+" stream "+k, pos, "decoder reads a buffer that is neither the parameter nor the data block")
 		}
 		checkDecl(c, cl, pos)
+		c04OptionalCount(c, cl, pos)
 		if cl.andx {
 			nAndX++
 			first := ""
